@@ -28,6 +28,7 @@ class FakeBucketStore(object):
         self.crash_after = None   # crash after this many further mutations
         self.reject_full = 0      # refuse this many further puts of a `full/` object
         self.reject_put_no = 0    # refuse the n-th put from now on (an error answer, not a crash: the caller's handlers run)
+        self.read_fault = None    # fail the n-th read request from now on (a listing step or a GET), once
 
     def now(self):
         return pytz.utc.localize(self.clock())
@@ -81,9 +82,22 @@ class FakeClient(object):
 
     def get_object(self, Bucket, Key):
         st = store(Bucket)
+        _tick_read(st)
         if Key not in st.objects:
             raise NoSuchKey(Key)
         return {'Body': _Body(st.objects[Key][0])}
+
+
+class ReadFault(Exception):
+    """a read request the store answers with an error (throttling, a connection reset)"""
+
+
+def _tick_read(st):
+    if st.read_fault is not None:
+        st.read_fault -= 1
+        if st.read_fault <= 0:
+            st.read_fault = None
+            raise ReadFault('injected')
 
 
 class FakeObjectSummary(object):
@@ -96,6 +110,7 @@ class FakeObjectSummary(object):
         return self._st.objects[self.key][1]
 
     def get(self):
+        _tick_read(self._st)
         return {'Body': _Body(self._st.objects[self.key][0])}
 
 
@@ -107,6 +122,7 @@ class FakeCollection(object):
     def __iter__(self):
         for k in sorted(self._st.objects):
             if k.startswith(self._prefix):
+                _tick_read(self._st)          # (every listed object stands for a listing page of its own)
                 yield FakeObjectSummary(self._st, k)
 
     def delete(self):
